@@ -46,8 +46,15 @@ def merge_stats(a, b):
     for k, v in b.items():
         if isinstance(v, dict):
             merge_stats(a.setdefault(k, {}), v)
+        elif isinstance(v, bool):
+            a[k] = bool(a.get(k, False)) or v
         elif isinstance(v, (int, float)):
-            a[k] = a.get(k, 0) + v
+            if k.startswith("envelope_max") or k.startswith("max_"):
+                a[k] = max(a.get(k, 0), v)
+            elif k.startswith("budget_") or k.startswith("const_"):
+                a[k] = v
+            else:
+                a[k] = a.get(k, 0) + v
         elif isinstance(v, list):
             a.setdefault(k, [])
             a[k].extend(v)
@@ -234,6 +241,8 @@ def run_check(modname, argv):
                 v["regression_of"] = e["id"]
                 violations.append(v)
 
+    for kid, n in (stats.get("known_seen") or {}).items():
+        kf_seen[kid] = kf_seen.get(kid, 0) + n
     # ---- exploration violations: suppress exactly the open known signatures, confirm the rest
     unknown = {}
     for v in violations:
